@@ -2,7 +2,7 @@
     clauses are REFUTED by concrete witnesses; over exact rationals the same
     definitions satisfy the range clause (PARTIAL). *)
 From HS Require Import Base.Prelude C20.Model.
-From Coq Require Import Floats QArith Lqa.
+From Coq Require Import Floats QArith Lqa Sorting.Sorted.
 Local Open Scope Z_scope.
 
 (** The clauses, for an arbitrary arithmetic. [adds] is a stream of (value, count). *)
@@ -151,6 +151,154 @@ Proof.
       * split; assumption.
 Qed.
 
+(** ** monotonicity of the centroid walk over a sorted centroid list (exact arithmetic) *)
+Definition csorted (cs : list (Q * Z)) : Prop := StronglySorted (fun a b => fst a <= fst b) cs.
+
+Lemma div_mono a b d : a <= b -> 0 < d -> a / d <= b / d.
+Proof. intros H Hd. unfold Qdiv. apply Qmult_le_compat_r; [exact H|]. apply Qlt_le_weak, Qinv_lt_0_compat, Hd. Qed.
+Lemma div_nonneg a d : 0 <= a -> 0 < d -> 0 <= a / d.
+Proof. intros. apply Qle_shift_div_l; [assumption|lra]. Qed.
+Lemma div_le1 a d : a <= d -> 0 < d -> a / d <= 1.
+Proof. intros. apply Qle_shift_div_r; [assumption|lra]. Qed.
+
+Lemma ramp_mono lo m d t1 t2 : lo <= m -> 0 < d -> t1 <= t2 ->
+  lo + t1 / d * (m - lo) <= lo + t2 / d * (m - lo).
+Proof. intros H Hd Ht. pose proof (div_mono t1 t2 d Ht Hd). nra. Qed.
+Lemma ramp_le lo m d t : lo <= m -> 0 < d -> t <= d -> lo + t / d * (m - lo) <= m.
+Proof. intros H Hd Ht. pose proof (div_le1 t d Ht Hd). nra. Qed.
+Lemma mid_mono pm m c a1 a2 : pm <= m -> 0 < c -> a1 <= a2 ->
+  pm + (m - pm) * ((1 # 2) + a1 / c) <= pm + (m - pm) * ((1 # 2) + a2 / c).
+Proof. intros H Hc Ha. pose proof (div_mono a1 a2 c Ha Hc). nra. Qed.
+Lemma mid_le pm m f : pm <= m -> f <= 1 -> pm + (m - pm) * f <= m.
+Proof. intros. nra. Qed.
+Lemma mid_ge pm m f : pm <= m -> 0 <= f -> pm <= pm + (m - pm) * f.
+Proof. intros. nra. Qed.
+Lemma last_mono m hi d a1 a2 : m <= hi -> 0 < d -> a1 <= a2 ->
+  m + a1 / d * (hi - m) <= m + a2 / d * (hi - m).
+Proof. intros H Hd Ha. pose proof (div_mono a1 a2 d Ha Hd). nra. Qed.
+Lemma last_ge m hi d a : m <= hi -> 0 < d -> 0 <= a -> m <= m + a / d * (hi - m).
+Proof. intros H Hd Ha. pose proof (div_nonneg a d Ha Hd). nra. Qed.
+
+Lemma range_false running t right : running <= t ->
+  a_leb QA running t && a_leb QA t right = false -> right < t.
+Proof.
+  intros H B. apply Qnot_le_lt. intros L. apply le_leb in H. apply le_leb in L. rewrite H, L in B. discriminate.
+Qed.
+Lemma range_true running t right : a_leb QA running t && a_leb QA t right = true -> running <= t /\ t <= right.
+Proof. intros B. apply andb_true_iff in B. destruct B as [B1 B2]. split; apply leb_le; assumption. Qed.
+
+Lemma csorted_inv c rest : csorted (c :: rest) -> csorted rest /\ forall c', In c' rest -> fst c <= fst c'.
+Proof. intros H. apply StronglySorted_inv in H. destruct H as [H1 H2]. split; [exact H1|]. now apply Forall_forall. Qed.
+
+(** The walk never returns less than the previous centroid's mean. *)
+Lemma walk_ge_prev lo hi total target : forall cs pm running rz,
+  Forall (okc lo hi) cs -> csorted cs -> (forall c, In c cs -> pm <= fst c) ->
+  running == inject_Z rz -> (rz + csum cs = total)%Z -> running <= target ->
+  pm <= td_walk QA lo hi total target (Some pm) running cs.
+Proof.
+  induction cs as [|[m c] rest IH]; intros pm running rz Hcs Hso Hge Hr Hsum Ht.
+  - cbn. lra.
+  - apply Forall_cons_iff in Hcs. destruct Hcs as [[Hm1 [Hm2 Hc]] Hrest]. cbn [fst snd] in *.
+    pose proof (injZ_pos c Hc) as Hcq. pose proof (Hge (m, c) (or_introl eq_refl)) as Hpm. cbn in Hpm.
+    destruct (csorted_inv _ _ Hso) as [Hso' Hle]. cbn [fst] in Hle.
+    cbn [td_walk]. destruct (a_leb QA running target && a_leb QA target _) eqn:B.
+    2:{ apply Qle_trans with m; [exact Hpm|].
+        apply (IH m (a_add QA running (a_ofZ QA c)) (rz + c)%Z); try assumption.
+        - cbn. rewrite Hr, inject_Z_plus. reflexivity.
+        - cbn in Hsum. lia.
+        - apply range_false in B; [|exact Ht]. destruct rest; cbn in *; [|lra].
+          assert (E : inject_Z total == running + inject_Z c) by (rewrite Hr, <- inject_Z_plus; replace total with (rz + c)%Z by lia; reflexivity).
+          lra. }
+    apply range_true in B. destruct B as [B1 B2].
+    destruct rest as [|r1 rest'].
+    + destruct (a_ltb QA _ target) eqn:L; [|exact Hpm].
+      apply ltb_lt in L. cbn in L. cbn [a_add a_sub a_mul a_div a_ofZ QA]. cbn in Hsum.
+      assert (Hrem : inject_Z total - running == inject_Z c).
+      { rewrite Hr. replace total with (rz + c)%Z by lia. rewrite inject_Z_plus. ring. }
+      set (rem := inject_Z total - running) in *.
+      assert (P : 0 < rem / inject_Z 2) by (apply Qlt_shift_div_l; [reflexivity|rewrite Hrem; lra]).
+      apply Qle_trans with m; [exact Hpm|]. apply last_ge; [exact Hm2|exact P|lra].
+    + destruct (a_ltb QA _ _) eqn:L; [|exact Hpm].
+      apply ltb_lt in L. cbn in L. cbn [a_add a_sub a_mul a_div a_ofZ QA]. rewrite half_eq in *.
+      apply mid_ge; [exact Hpm|]. pose proof (div_nonneg (target - running) (inject_Z c) ltac:(lra) Hcq). lra.
+Qed.
+
+(** Non-decreasing in the target (= q * total), over any sorted centroid list. *)
+Lemma walk_mono lo hi total : lo <= hi -> forall cs prev running rz t1 t2,
+  (forall pm, prev = Some pm -> forall c, In c cs -> pm <= fst c) ->
+  Forall (okc lo hi) cs -> csorted cs -> running == inject_Z rz -> (rz + csum cs = total)%Z ->
+  running <= t1 -> t1 <= t2 -> t2 <= inject_Z total ->
+  td_walk QA lo hi total t1 prev running cs <= td_walk QA lo hi total t2 prev running cs.
+Proof.
+  intros Hlh. induction cs as [|[m c] rest IH]; intros prev running rz t1 t2 Hp Hcs Hso Hr Hsum H1 H12 H2.
+  - cbn. destruct prev; lra.
+  - apply Forall_cons_iff in Hcs. destruct Hcs as [[Hm1 [Hm2 Hc]] Hrest]. cbn [fst snd] in *.
+    pose proof (injZ_pos c Hc) as Hcq.
+    destruct (csorted_inv _ _ Hso) as [Hso' Hle]. cbn [fst] in Hle.
+    assert (Hrun' : a_add QA running (a_ofZ QA c) == inject_Z (rz + c)) by (cbn; rewrite Hr, inject_Z_plus; reflexivity).
+    assert (Hsum' : (rz + c + csum rest = total)%Z) by (cbn in Hsum; lia).
+    cbn [td_walk].
+    destruct (a_leb QA running t1 && a_leb QA t1 _) eqn:B1.
+    2:{ (* t1 beyond this centroid: so is t2 *)
+        apply range_false in B1; [|exact H1].
+        destruct (a_leb QA running t2 && a_leb QA t2 _) eqn:B2.
+        { apply range_true in B2. destruct B2 as [_ B2]. lra. }
+        apply (IH (Some m) _ (rz + c)%Z); try assumption.
+        - intros pm E. injection E as <-. exact Hle.
+        - destruct rest; cbn in *; [|lra].
+          assert (E : inject_Z total == running + inject_Z c) by (rewrite Hr, <- inject_Z_plus; replace total with (rz + c)%Z by lia; reflexivity).
+          lra. }
+    apply range_true in B1. destruct B1 as [B1a B1b].
+    destruct (a_leb QA running t2 && a_leb QA t2 _) eqn:B2.
+    2:{ (* t1 on this centroid, t2 beyond it *)
+        apply range_false in B2; [|lra].
+        destruct rest as [|r1 rest']; [cbn in B2; lra|].
+        apply Qle_trans with m.
+        - destruct prev as [pm|].
+          + destruct (a_ltb QA _ _) eqn:L; [|lra]. apply ltb_lt in L. cbn in L.
+            cbn [a_add a_sub a_mul a_div a_ofZ QA]. rewrite half_eq in *.
+            apply mid_le; [apply (Hp pm eq_refl (m, c)); now left|lra].
+          + destruct (a_ltb QA t1 _) eqn:L; [|lra]. apply ltb_lt in L. cbn in L.
+            cbn [a_add a_sub a_mul a_div a_ofZ QA].
+            assert (D : 0 < inject_Z c / inject_Z 2) by (apply Qlt_shift_div_l; [reflexivity|lra]).
+            apply ramp_le; [exact Hm1|exact D|lra].
+        - apply (walk_ge_prev lo hi total t2 (r1 :: rest') m _ (rz + c)%Z); try assumption. cbn in *; lra. }
+    apply range_true in B2. destruct B2 as [B2a B2b].
+    (* both on this centroid *)
+    destruct prev as [pm|].
+    + assert (Hpm : pm <= m) by (apply (Hp pm eq_refl (m, c)); now left).
+      destruct rest as [|r1 rest'].
+      * cbn in Hsum.
+        assert (Hrem : inject_Z total - running == inject_Z c).
+        { rewrite Hr. replace total with (rz + c)%Z by lia. rewrite inject_Z_plus. ring. }
+        cbn [a_add a_sub a_mul a_div a_ofZ QA]. set (rem := inject_Z total - running) in *.
+        assert (P : 0 < rem / inject_Z 2) by (apply Qlt_shift_div_l; [reflexivity|rewrite Hrem; lra]).
+        destruct (a_ltb QA _ t1) eqn:L1; destruct (a_ltb QA _ t2) eqn:L2;
+          try apply ltb_lt in L1; try apply ltb_lt in L2; try apply ltb_false_le in L1; try apply ltb_false_le in L2;
+          cbn in L1, L2.
+        -- apply last_mono; [exact Hm2|exact P|lra].
+        -- lra.
+        -- apply last_ge; [exact Hm2|exact P|lra].
+        -- lra.
+      * cbn [a_add a_sub a_mul a_div a_ofZ QA]. change (inject_Z 1 / inject_Z 2) with (1 # 2) in *.
+        destruct (a_ltb QA ((t1 - running) / inject_Z c) _) eqn:L1; destruct (a_ltb QA ((t2 - running) / inject_Z c) _) eqn:L2;
+          try apply ltb_lt in L1; try apply ltb_lt in L2; try apply ltb_false_le in L1; try apply ltb_false_le in L2;
+          cbn in L1, L2.
+        -- apply mid_mono; [exact Hpm|exact Hcq|lra].
+        -- apply mid_le; [exact Hpm|lra].
+        -- pose proof (div_mono (t1 - running) (t2 - running) (inject_Z c) ltac:(lra) Hcq). lra.
+        -- lra.
+    + cbn [a_add a_sub a_mul a_div a_ofZ QA].
+      assert (D : 0 < inject_Z c / inject_Z 2) by (apply Qlt_shift_div_l; [reflexivity|lra]).
+      destruct (a_ltb QA t1 _) eqn:L1; destruct (a_ltb QA t2 _) eqn:L2;
+        try apply ltb_lt in L1; try apply ltb_lt in L2; try apply ltb_false_le in L1; try apply ltb_false_le in L2;
+        cbn in L1, L2.
+      * apply ramp_mono; [exact Hm1|exact D|exact H12].
+      * apply ramp_le; [exact Hm1|exact D|lra].
+      * lra.
+      * lra.
+Qed.
+
 (** ** invariants of add / flush / compress / merge over Q *)
 Section QInv.
 Variable msz : Z -> Q -> Q.
@@ -227,6 +375,88 @@ Proof.
   split; [exact F|]. etransitivity; [exact HS|]. etransitivity; [|apply (sort_by_csum fst (c1 :: c2 :: r))]. reflexivity.
 Qed.
 
+(** ** [_compress] leaves the centroid list sorted by mean *)
+Lemma ss_app {X} (R : X -> X -> Prop) l1 l2 :
+  StronglySorted R (l1 ++ l2) <->
+  StronglySorted R l1 /\ StronglySorted R l2 /\ forall a b, In a l1 -> In b l2 -> R a b.
+Proof.
+  induction l1 as [|x l1 IH]; cbn.
+  - split; [intros H; repeat split; [constructor|exact H|intros a b []]|intros (_ & H & _); exact H].
+  - split.
+    + intros H. apply StronglySorted_inv in H. destruct H as [H1 H2]. apply IH in H1. destruct H1 as (A & B & C).
+      rewrite Forall_app in H2. destruct H2 as [F1 F2]. repeat split; [constructor; assumption|exact B|].
+      intros a b [<-|Ha] Hb; [rewrite Forall_forall in F2; auto|auto].
+    + intros (A & B & C). apply StronglySorted_inv in A. destruct A as [A1 A2]. constructor.
+      * apply IH. repeat split; [exact A1|exact B|intros a b Ha Hb; apply C; [now right|exact Hb]].
+      * apply Forall_app. split; [exact A2|]. apply Forall_forall. intros b Hb. apply C; [now left|exact Hb].
+Qed.
+
+Lemma ins_sorted (x : Q * Z) l : csorted l -> csorted (ins_by QA fst x l).
+Proof.
+  induction l as [|y r IH]; intros H; cbn [ins_by].
+  - constructor; constructor.
+  - apply StronglySorted_inv in H. destruct H as [H1 H2].
+    destruct (a_ltb QA _ _) eqn:L.
+    + apply ltb_lt in L. cbn in L. constructor; [constructor; assumption|]. constructor; [lra|].
+      eapply Forall_impl; [|exact H2]. intros a Ha. cbn in *. lra.
+    + apply ltb_false_le in L. cbn in L. constructor; [apply IH; exact H1|].
+      apply ins_by_forall; [exact L|exact H2].
+Qed.
+
+Lemma sort_sorted (l : list (Q * Z)) : csorted (sort_by QA fst l).
+Proof.
+  unfold sort_by. assert (G : forall acc, csorted acc -> csorted (fold_left (fun acc x => ins_by QA fst x acc) l acc)).
+  { induction l as [|x l IH]; intros acc H; cbn [fold_left]; [exact H|]. apply IH. now apply ins_sorted. }
+  apply G. constructor.
+Qed.
+
+Lemma cloop_sorted lo hi total cs : forall acc running,
+  Forall (okc lo hi) acc -> Forall (okc lo hi) cs -> csorted (rev acc ++ cs) ->
+  csorted (td_cloop QA msz total acc running cs).
+Proof.
+  induction cs as [|c rest IH]; intros acc running Ha Hc Hs.
+  - cbn [td_cloop]. now rewrite app_nil_r in Hs.
+  - apply Forall_cons_iff in Hc. destruct Hc as [Hc Hrest]. destruct acc as [|last acc']; cbn [td_cloop].
+    + apply IH; [constructor; [exact Hc|constructor]|exact Hrest|exact Hs].
+    + apply Forall_cons_iff in Ha. destruct Ha as [Hl Ha'].
+      destruct (a_leb QA _ _).
+      * apply IH; [constructor; [apply merge2_ok; assumption|exact Ha']|exact Hrest|].
+        cbn [rev] in *. rewrite <- app_assoc in Hs. cbn [app] in Hs. rewrite <- app_assoc. cbn [app].
+        apply ss_app in Hs. destruct Hs as (S1 & S2 & Cross). apply ss_app.
+        apply StronglySorted_inv in S2. destruct S2 as [S2 F2]. apply Forall_cons_iff in F2. destruct F2 as [Hlc F2].
+        apply StronglySorted_inv in S2. destruct S2 as [S3 F3].
+        destruct Hl as (L1 & L2 & L3), Hc as (C1 & C2 & C3).
+        pose proof (injZ_pos _ L3). pose proof (injZ_pos _ C3).
+        destruct (wmean (fst last) (fst c) (fst last) (fst c) (inject_Z (snd last)) (inject_Z (snd c))) as [W1 W2]; try assumption; try lra.
+        assert (M : fst last <= fst (c_merge2 QA last c) /\ fst (c_merge2 QA last c) <= fst c).
+        { unfold c_merge2. cbn [fst snd a_add a_mul a_div a_ofZ QA]. rewrite inject_Z_plus. split; assumption. }
+        destruct M as [M1 M2]. repeat split; [exact S1| |].
+        -- constructor; [exact S3|]. eapply Forall_impl; [|exact F3]. intros a Ha. cbn in *. lra.
+        -- intros a b Ha [<-|Hb].
+           ++ specialize (Cross a last Ha (or_introl eq_refl)). cbn in *. lra.
+           ++ apply Cross; [exact Ha|right; right; exact Hb].
+      * apply IH; [constructor; [exact Hc|constructor; assumption]|exact Hrest|].
+        cbn [rev] in *. rewrite <- !app_assoc in *. cbn [app] in *. exact Hs.
+Qed.
+
+Lemma compress_sorted lo hi total cs : Forall (okc lo hi) cs -> csorted cs -> csorted (td_compress QA msz total cs).
+Proof.
+  intros F H. unfold td_compress. destruct cs as [|c1 [|c2 r]]; [exact H|exact H|].
+  apply (cloop_sorted lo hi); [constructor|apply sort_by_forall; exact F|cbn [rev app]; apply sort_sorted].
+Qed.
+Lemma compress_sorted' lo hi total cs : Forall (okc lo hi) cs -> csorted (td_compress QA msz total cs) \/ (length cs <= 1)%nat.
+Proof.
+  intros F. unfold td_compress. destruct cs as [|c1 [|c2 r]]; [right; cbn; lia|right; cbn; lia|left].
+  apply (cloop_sorted lo hi); [constructor|apply sort_by_forall; exact F|cbn [rev app]; apply sort_sorted].
+Qed.
+Lemma short_sorted (cs : list (Q * Z)) : (length cs <= 1)%nat -> csorted cs.
+Proof. destruct cs as [|a [|b r]]; cbn; intros; try lia; repeat constructor. Qed.
+Lemma compress_sorted_any lo hi total cs : Forall (okc lo hi) cs -> csorted (td_compress QA msz total cs).
+Proof.
+  intros F. destruct (compress_sorted' lo hi total cs F) as [H|H]; [exact H|].
+  unfold td_compress. destruct cs as [|c1 [|c2 r]]; try (cbn in H; lia); apply short_sorted; cbn; lia.
+Qed.
+
 Definition binv (lo hi : Q) (s : tdig QA) : Prop :=
   Forall (okc lo hi) (td_cs s) /\ Forall (okv lo hi) (td_buf s) /\
   (csum (td_cs s) + Z.of_nat (length (td_buf s)) = td_total s)%Z.
@@ -273,14 +503,15 @@ Proof.
   - eapply Forall_impl; [|exact B]. intros v (X & Y). unfold okv. split; lra.
 Qed.
 
-Lemma add_tinv s v c : tinv s -> tinv (fst (td_add QA msz bs s v c)).
+Definition add_pre (s : tdig QA) (v : Q) (c : Z) : tdig QA :=
+  {| td_cs := td_cs s; td_total := (td_total s + c)%Z; td_min := opt_min QA (td_min s) v;
+     td_max := opt_max QA (td_max s) v; td_buf := td_buf s ++ repeat v (Z.to_nat c) |}.
+
+Lemma add_pre_tinv s v c : (0 <= c)%Z -> tinv s -> tinv (add_pre s v c).
 Proof.
-  intros H. unfold td_add. destruct (c <? 0)%Z eqn:C1; [exact H|]. destruct (c =? 0)%Z eqn:C2; [exact H|].
-  cbn [fst].
-  set (s1 := {| td_cs := td_cs s; td_total := (td_total s + c)%Z; td_min := opt_min QA (td_min s) v;
-                td_max := opt_max QA (td_max s) v; td_buf := td_buf s ++ repeat v (Z.to_nat c) |}).
+  intros C0 H. set (s1 := add_pre s v c).
   assert (H1 : tinv s1).
-  { unfold tinv in *. unfold s1. cbn [td_min td_max td_cs td_buf td_total].
+  { unfold tinv in *. unfold s1, add_pre. cbn [td_min td_max td_cs td_buf td_total].
     destruct (td_min s) as [lo|] eqn:E1, (td_max s) as [hi|] eqn:E2; try tauto.
     - destruct H as [L B]. cbn [opt_min opt_max].
       set (lo' := if a_ltb QA v lo then v else lo). set (hi' := if a_ltb QA hi v then v else hi).
@@ -288,8 +519,9 @@ Proof.
       { unfold lo', hi'. destruct (a_ltb QA v lo) eqn:A1; [apply ltb_lt in A1|apply ltb_false_le in A1];
           (destruct (a_ltb QA hi v) eqn:A2; [apply ltb_lt in A2|apply ltb_false_le in A2]); repeat split; lra. }
       destruct X as (X1 & X2 & X3 & X4).
-      replace (if a_ltb QA v lo then Some v else Some lo) with (Some lo') by (unfold lo'; destruct (a_ltb QA v lo); reflexivity).
-      replace (if a_ltb QA hi v then Some v else Some hi) with (Some hi') by (unfold hi'; destruct (a_ltb QA hi v); reflexivity).
+      assert (Emin : (if a_ltb QA v lo then Some v else Some lo) = Some lo') by (unfold lo'; destruct (a_ltb QA v lo); reflexivity).
+      assert (Emax : (if a_ltb QA hi v then Some v else Some hi) = Some hi') by (unfold hi'; destruct (a_ltb QA hi v); reflexivity).
+      change (Model.num QA) with Q in *. rewrite Emin, Emax.
       split; [lra|]. destruct (binv_widen lo hi lo' hi' s X1 X3 B) as (A & B2 & C).
       unfold binv. cbn [td_cs td_buf td_total]. repeat split; [exact A| |].
       + apply Forall_app. split; [exact B2|]. apply Forall_forall. intros x Hx. apply repeat_spec in Hx. subst x. split; assumption.
@@ -298,6 +530,13 @@ Proof.
       rewrite A, B, C. repeat split; [constructor| |].
       + cbn [app]. apply Forall_forall. intros x Hx. apply repeat_spec in Hx. subst x. split; lra.
       + cbn [app csum]. rewrite repeat_length. lia. }
+  exact H1.
+Qed.
+
+Lemma add_tinv s v c : tinv s -> tinv (fst (td_add QA msz bs s v c)).
+Proof.
+  intros H. unfold td_add. destruct (c <? 0)%Z eqn:C1; [exact H|]. destruct (c =? 0)%Z eqn:C2; [exact H|].
+  cbn [fst]. fold (add_pre s v c). pose proof (add_pre_tinv s v c ltac:(lia) H) as H1.
   destruct (bs <=? _)%Z; [apply flush_tinv; exact H1|exact H1].
 Qed.
 
@@ -387,4 +626,137 @@ Proof.
   - rewrite Eb in HS. cbn in HS. lia.
 Qed.
 
+(** Monotonicity clause in exact arithmetic, for a flushed digest whose
+    centroid list is sorted by mean (what [_compress] leaves behind). *)
+Ltac nz := change (inject_Z 0) with 0 in *; change (inject_Z 1) with 1 in *.
+
+Theorem td_exact_quantile_monotone_sorted : forall s q1 q2 v1 v2,
+  tinv s -> td_buf s = [] -> csorted (td_cs s) -> q1 <= q2 ->
+  snd (td_quantile QA msz s q1) = Some v1 -> snd (td_quantile QA msz s q2) = Some v2 -> v1 <= v2.
+Proof.
+  intros s q1 q2 v1 v2 Hinv Hbuf Hso Hq.
+  assert (Hfl : td_flush QA msz s = s) by (unfold td_flush; rewrite Hbuf; reflexivity).
+  unfold td_quantile. rewrite Hfl.
+  destruct (negb (a_leb QA (a_ofZ QA 0) q1 && a_leb QA q1 (a_ofZ QA 1))) eqn:G1; cbn [fst snd]; [discriminate|].
+  destruct (negb (a_leb QA (a_ofZ QA 0) q2 && a_leb QA q2 (a_ofZ QA 1))) eqn:G2; cbn [fst snd]; [discriminate|].
+  apply negb_false_iff, range_true in G1. apply negb_false_iff, range_true in G2.
+  cbn in G1, G2. destruct G1 as [G1a G1b], G2 as [G2a G2b].
+  unfold tinv in Hinv.
+  destruct (td_cs s) as [|c0 cr] eqn:Ec; [destruct (td_min s), (td_max s); discriminate|].
+  destruct (td_min s) as [lo|] eqn:E1; destruct (td_max s) as [hi|] eqn:E2; try tauto; try discriminate.
+  destruct Hinv as [L (Fc & _ & HS)]. rewrite Hbuf in HS. cbn [length] in HS. rewrite Ec in Fc, HS.
+  set (tot := td_total s) in *.
+  assert (Htot : 0 < inject_Z tot).
+  { apply injZ_pos. apply Forall_cons_iff in Fc. destruct Fc as [(_ & _ & P) Fr].
+    assert (forall l, Forall (okc lo hi) l -> (0 <= csum l)%Z).
+    { induction l as [|x l IHl]; intros Fl; cbn; [lia|]. apply Forall_cons_iff in Fl. destruct Fl as [(_ & _ & Px) Fl]. specialize (IHl Fl). lia. }
+    specialize (H cr Fr). cbn [csum] in HS. change (Model.num QA) with Q in *. lia. }
+  assert (WR : forall t, lo <= td_walk QA lo hi tot t None (a_ofZ QA 0) (c0 :: cr) /\
+                         td_walk QA lo hi tot t None (a_ofZ QA 0) (c0 :: cr) <= hi).
+  { intros t. apply (walk_range lo hi tot t L (c0 :: cr) None (a_ofZ QA 0) 0%Z); try assumption; try reflexivity; try lia.
+    intros pm E; discriminate. }
+  destruct (a_eqb QA q1 (a_ofZ QA 0)) eqn:Z1; cbn [fst snd].
+  - intros V1. injection V1 as <-.
+    destruct (a_eqb QA q2 (a_ofZ QA 0)); cbn [fst snd]; [intros V2; injection V2 as <-; (nz; lra)|].
+    destruct (a_eqb QA q2 (a_ofZ QA 1)); cbn [fst snd]; [intros V2; injection V2 as <-; (nz; lra)|].
+    intros V2. injection V2 as <-. apply WR.
+  - assert (N1 : ~ q1 == 0).
+    { intros E. cbn in Z1. assert (T : Qeq_bool q1 (inject_Z 0) = true) by (apply Qeq_bool_iff; exact E). congruence. }
+    destruct (a_eqb QA q1 (a_ofZ QA 1)) eqn:O1; cbn [fst snd].
+    + apply Qeq_bool_iff in O1. cbn in O1. intros V1. injection V1 as <-.
+      assert (Eq2 : q2 == 1) by (cbn in *; (nz; lra)).
+      assert (Z2 : a_eqb QA q2 (a_ofZ QA 0) = false).
+      { cbn. destruct (Qeq_bool q2 (inject_Z 0)) eqn:T; [|reflexivity]. apply Qeq_bool_iff in T. cbn in T. (nz; lra). }
+      assert (O2 : a_eqb QA q2 (a_ofZ QA 1) = true) by (cbn; apply Qeq_bool_iff; exact Eq2).
+      rewrite Z2, O2. cbn [fst snd]. intros V2. injection V2 as <-. (nz; lra).
+    + intros V1. injection V1 as <-.
+      assert (Z2 : a_eqb QA q2 (a_ofZ QA 0) = false).
+      { cbn. destruct (Qeq_bool q2 (inject_Z 0)) eqn:T; [|reflexivity]. apply Qeq_bool_iff in T. cbn in *. (nz; lra). }
+      rewrite Z2. destruct (a_eqb QA q2 (a_ofZ QA 1)); cbn [fst snd].
+      * intros V2. injection V2 as <-. apply WR.
+      * intros V2. injection V2 as <-.
+        apply (walk_mono lo hi tot L (c0 :: cr) None (a_ofZ QA 0) 0%Z); try assumption; try reflexivity; try lia.
+        -- intros pm E; discriminate.
+        -- cbn in *. (nz; nra).
+        -- cbn in *. (nz; nra).
+        -- cbn in *. (nz; nra).
+Qed.
+
+(** ** every reachable digest keeps its centroid list sorted; monotonicity for all of them *)
+Lemma flush_sorted s : tinv s -> csorted (td_cs s) -> csorted (td_cs (td_flush QA msz s)).
+Proof.
+  intros Hi Hs. unfold td_flush. destruct (td_buf s) as [|b0 br] eqn:E; [exact Hs|]. cbn [td_cs].
+  unfold tinv in Hi. destruct (td_min s) as [lo|], (td_max s) as [hi|]; try tauto.
+  - destruct Hi as [_ (Hc & Hb & _)]. apply (compress_sorted_any lo hi).
+    apply Forall_app. split; [exact Hc|]. apply Forall_map. apply sort_by_forall. rewrite E in Hb.
+    eapply Forall_impl; [|exact Hb]. intros v [V1 V2]. unfold okc. cbn. repeat split; auto; reflexivity.
+  - destruct Hi as (_ & B & _). rewrite B in E. discriminate.
+Qed.
+
+Lemma add_sorted s v c : tinv s -> csorted (td_cs s) -> csorted (td_cs (fst (td_add QA msz bs s v c))).
+Proof.
+  intros Hi Hs. unfold td_add.
+  destruct (c <? 0)%Z eqn:C1; [exact Hs|]. destruct (c =? 0)%Z; [exact Hs|]. cbn [fst].
+  fold (add_pre s v c). destruct (bs <=? _)%Z; [|exact Hs].
+  apply flush_sorted; [apply add_pre_tinv; [lia|exact Hi]|exact Hs].
+Qed.
+
+Lemma merge_sorted a b : tinv a -> tinv b -> csorted (td_cs (fst (td_merge QA msz a b))).
+Proof.
+  intros Ha Hb. apply flush_tinv in Ha. apply flush_tinv in Hb. unfold td_merge. cbn [fst td_cs].
+  set (a1 := td_flush QA msz a) in *. set (b1 := td_flush QA msz b) in *.
+  unfold tinv in *.
+  destruct (td_min a1) as [la|], (td_max a1) as [ha|]; try tauto;
+  destruct (td_min b1) as [lb|], (td_max b1) as [hb|]; try tauto.
+  - destruct Ha as [La (Fa & _)], Hb as [Lb (Fb & _)].
+    set (lo := if a_ltb QA lb la then lb else la). set (hi := if a_ltb QA ha hb then hb else ha).
+    assert (X : lo <= la /\ lo <= lb /\ ha <= hi /\ hb <= hi).
+    { unfold lo, hi. destruct (a_ltb QA lb la) eqn:Q1; [apply ltb_lt in Q1|apply ltb_false_le in Q1];
+        (destruct (a_ltb QA ha hb) eqn:Q2; [apply ltb_lt in Q2|apply ltb_false_le in Q2]); repeat split; lra. }
+    destruct X as (X1 & X2 & X3 & X4).
+    apply (compress_sorted_any lo hi). apply Forall_app. split.
+    + eapply Forall_impl; [|exact Fa]. intros c (P & Q0 & R). unfold okc. repeat split; try assumption; lra.
+    + eapply Forall_impl; [|exact Fb]. intros c (P & Q0 & R). unfold okc. repeat split; try assumption; lra.
+  - destruct Ha as [La (Fa & _)], Hb as (Cb & _). apply (compress_sorted_any la ha). rewrite Cb, app_nil_r. exact Fa.
+  - destruct Ha as (Ca & _), Hb as [Lb (Fb & _)]. apply (compress_sorted_any lb hb). rewrite Ca. exact Fb.
+  - destruct Ha as (Ca & _), Hb as (Cb & _). rewrite Ca, Cb. cbn. constructor.
+Qed.
+
+Lemma reach_sorted s : reach s -> csorted (td_cs s).
+Proof.
+  induction 1.
+  - cbn. constructor.
+  - apply add_sorted; [now apply reach_tinv|assumption].
+  - apply flush_sorted; [now apply reach_tinv|assumption].
+  - apply merge_sorted; now apply reach_tinv.
+Qed.
+
+Lemma flush_idem s : td_flush QA msz (td_flush QA msz s) = td_flush QA msz s.
+Proof. unfold td_flush at 1. destruct (td_buf (td_flush QA msz s)) eqn:E; [reflexivity|]. unfold td_flush in E. destruct (td_buf s) eqn:E2; cbn in E; [rewrite E2 in E|]; discriminate. Qed.
+
+Lemma quantile_flush s q : snd (td_quantile QA msz s q) = snd (td_quantile QA msz (td_flush QA msz s) q).
+Proof. unfold td_quantile. rewrite flush_idem. destruct (negb _); reflexivity. Qed.
+
+(** Monotonicity clause in exact arithmetic: for every digest built by adds,
+    flushes and merges, quantile is non-decreasing in q. *)
+Theorem td_exact_quantile_monotone : forall s q1 q2 v1 v2, reach s -> q1 <= q2 ->
+  snd (td_quantile QA msz s q1) = Some v1 -> snd (td_quantile QA msz s q2) = Some v2 -> v1 <= v2.
+Proof.
+  intros s q1 q2 v1 v2 R Hq. rewrite (quantile_flush s q1), (quantile_flush s q2).
+  apply td_exact_quantile_monotone_sorted; try assumption.
+  - apply flush_tinv, reach_tinv, R.
+  - unfold td_flush. destruct (td_buf s) eqn:E; [exact E|reflexivity].
+  - apply reach_sorted. now constructor.
+Qed.
+
 End QInv.
+
+(** The exact-arithmetic theorem is not vacuous: a reachable digest whose
+    quantile is defined. *)
+Example td_exact_example :
+  let msz := fun (_ : Z) (_ : Q) => 1%Q in
+  let s := fst (td_add QA msz 2 (fst (td_add QA msz 2 (td_empty QA) (1 # 2) 1)) (3 # 2) 1) in
+  reach msz 2 s /\ snd (td_quantile QA msz s (1 # 4)) = Some (1 # 2).
+Proof.
+  cbv zeta. split; [repeat constructor|]. vm_compute. reflexivity.
+Qed.
